@@ -12,10 +12,14 @@
                       (just after a Go expression or a comment), where "</" ends the element whatever d is;
                       ws = trailing white space is still being consumed (parse.Whitespace / OptionalWhitespace).
                       Comments are tried only when d is jsQuoteNone (since 3c0a15d), and breakForHTML is subject to the same test.
-     KEsc d           a backslash was read: jsBackslashEscape takes the next rune with it, whatever it is
+     KEsc d           a backslash was read: jsBackslashEscape takes the next rune with it, whatever it is - of a line
+                      continuation written backslash CR LF it takes the CR; the LF is then an ordinary character
      KLineOpen/KLine  inside jsSingleLineComment (ends after LF - parse.NewLine - or at the end of input)
      KBlockOpen/KBlock inside jsMultiLineComment (ends after "*/" and optional white space)
-     KEnd             the element's contents are over ("</script>" or any "</")                                       *)
+     KEnd             the element's contents are over ("</script>" or any "</")
+   Line terminators (LF, CR, U+2028/9) are ordinary characters in KChar: no line end changes the delimiter, so a literal
+   that is not closed on its line (not JavaScript) keeps the quote open for the text that follows, and a template saved
+   with CR LF line endings gets the verdicts of the LF file (proofs/JsLinesProof.v tracker_crlf).  Only LF ends KLine.   *)
 From Coq.Strings Require Import Byte String.
 From Coq Require Import List NArith Bool.
 Import ListNotations.
